@@ -2015,7 +2015,7 @@ def run(ctx):
             base = {"chart": chart, "hist": hist}
             hpr.append(dict(base, kind="point", items=[x for x in ok] + [ok]))
             tri = [list(c) for c in itertools.permutations(ok[:4], 3)]
-            hpr.append(dict(base, kind="polygon", items=tri + [[ok[0:3], ok[1:4]]] + ([ok[:4]] if len(ok) >= 4 else [])))
+            hpr.append(dict(base, kind="polygon", items=tri + ([[ok[0:3], ok[1:4]], ok[:4]] if len(ok) >= 4 else [])))
             hpr.append(dict(base, kind="segment", items=[list(c) for c in itertools.permutations(ok[:5], 2)]))
     product("history-projective", "checks.c19:case_projective", hpr,
             domains={"charts": [0, 1, 2], "ops": HIST_OPS, "transforms": {k: np.asarray(PTF_ALL[k]).tolist() for k in HIST_PAIRS["projective"]},
